@@ -87,7 +87,7 @@ func RunInstance(prog *Program, inst *Instance, sv Solvers) (res *InstanceResult
 	res.sem = make(chan struct{}, 64)
 	res.keepScripts = os.Getenv("VP_DUMP") != ""
 	st := &State{prog: prog, b: term.NewB(), inst: inst, res: res, pool: sv.Pool,
-		sizeMemo: map[types.Type]int{}, subst: map[*term.Node]*term.Node{}, globals: map[*ssa.Global]*Object{}, lockOwner: map[*Object]int{}, redirect: map[string]*ssa.Function{}}
+		sizeMemo: map[types.Type]int{}, subst: map[*term.Node]*term.Node{}, bounds: map[*term.Node][2]uint64{}, globals: map[*ssa.Global]*Object{}, lockOwner: map[*Object]int{}, redirect: map[string]*ssa.Function{}}
 	st.stepLimit = inst.StepLimit
 	if inst.TimeLimit > 0 {
 		st.deadline = time.Now().Add(inst.TimeLimit)
